@@ -157,7 +157,7 @@ def shard_a(member, acc):
     sch = H.load_schema(xml)
     mid = {"name": name, "schema": xml}
     n = 0
-    cap = 8 if tier == "quick" else 80
+    cap = 8 if tier == "quick" else 24
     covered_paths = set()
     for events, d in C.nodes(S, root, cdepth, lean):
         if d.verdict != "A" or len(events) < 2:
@@ -185,9 +185,9 @@ def shard_a(member, acc):
             seen.add(t)
             check_text(sch, t, acc, {"member": mid, "seed": text, "mutation": lab}, base)
             acc.transitions += 1
-        if tier != "quick" and len(text.split("\n")) <= 5:
+        if tier != "quick" and len(text.split("\n")) <= 5 and n <= 12:
             firsts = sorted(seen)
-            for t1 in firsts[::7]:
+            for t1 in firsts[::19]:
                 for lab, t2 in mutations(t1):
                     if t2 in seen:
                         continue
@@ -205,7 +205,7 @@ def shard_a(member, acc):
                     check_text(sch, t, acc, {"member": mid, "seed": text, "mutation": lab}, base)
                     acc.transitions += 1
                     acc.extra["role_line_insertions"] += 1
-        if tpaths and (fresh_path or n <= (4 if tier == "quick" else 40)):
+        if tpaths and (fresh_path or n <= (4 if tier == "quick" else 12)):
             covered_paths |= tpaths
             overrides_of_seed(S, sch, mid, events, text, acc, tier)
     return acc
@@ -650,11 +650,12 @@ def run(tier):
              "URL prefix (12) + <= %d tokens from a 16-token URL alphabet ('[', ']', ':', '#', NUL, '..', 'package', an "
              "unresolvable host ...).  states = seeds, transitions = loads.  Non-trivial = mutated input whose "
              "outcome class differs from its seed's / graph with >= 1 edge / validator run on >= 2 files."
-             % ("" if tier == "quick" else ", pairs of mutations for seeds <= 5 lines", 2 if tier == "quick" else 3),
-        bounds={"mutation_order": 1 if tier == "quick" else 2, "graphs": 1024},
+             % ("" if tier == "quick" else ", pairs (every 19th first mutation x all second mutations) for the first 12 seeds <= 5 lines of each schema", 2 if tier == "quick" else 3),
+        bounds={"mutation_order": 1 if tier == "quick" else 2, "graphs": 1024,
+                "seeds_per_schema": 8 if tier == "quick" else 24},
         assumptions=["schemas use only datatypes that reject with ValueError",
                      "accept/reject of acyclic include graphs: every file holds only multikey lines, so all are accepted"])
-    mem = [("corpus",) + m + (tier,) for m in C.members(tier)]
+    mem = [("corpus",) + m + (tier,) for m in C.members_bounded(tier, 4)]
     S, text = long_seed()
     nm = len(list(mutations(text)))
     step = (nm + 15) // 16
@@ -666,7 +667,7 @@ def run(tier):
     ncomb = sum(len(URL_TOKENS) ** n for n in range(maxlen + 1))
     step = (ncomb + 31) // 32
     core.pmap(shard_e, [(lo, lo + step, maxlen) for lo in range(0, ncomb, step)], run.acc)
-    cm = [m for m in C.members(tier) if m[0].startswith("rich") or "@1" in m[0]]
+    cm = [m for m in C.members_bounded(tier, 4) if m[0].startswith("rich") or "@1" in m[0]]
     core.pmap(shard_d, [(m, tier) for m in cm[:: (4 if tier == "quick" else 1)]], run.acc)
     a = run.acc
     a.traces = a.transitions
